@@ -231,6 +231,34 @@ def main():
                           event=ev, state=rej["state"][:500]),
                      dict(test=tlabels[rej["tid"] - 1]))
 
+    # ------------------- the shipped example scripts under the tracer
+    # (quantarhei.wizard.examples: the usage the documentation shows; the
+    # ones that stop with an exception on this tree exercise error exits)
+    tr3 = UnitsTracer()
+    tr3.install()
+    try:
+        etraces, elabels, eouts, eskip = repotests.run_examples_under(
+            tr3, thorough=ck.thorough)
+    finally:
+        tr3.uninstall()
+    for lab, t, o in zip(elabels, etraces, eouts):
+        ck.case("example-trace", lab, nontrivial=len(t) >= 2,
+                sample=dict(script=lab, events=len(t), outcome=o))
+    if len(etraces) < 8:
+        raise MachineryFailure("only %d example scripts produced units "
+                               "events" % len(etraces))
+    rej = ck.validate_traces("UnitsTrace", "UnitsTrace_tests.cfg", etraces,
+                             workers=8)
+    if rej:
+        t = etraces[rej["tid"] - 1]
+        ev = t[min(rej["l"], len(t)) - 1]
+        ck.violation("example-" + str(rej["violated"]),
+                     "extrace:%s:%s" % (rej["violated"], ev.get("ev")),
+                     dict(script=elabels[rej["tid"] - 1],
+                          event_index=rej["l"], event=ev,
+                          state=rej["state"][:500]),
+                     dict(script=elabels[rej["tid"] - 1]))
+
     # negative control of the binding: a trace in which a call returns with
     # changed units must be flagged
     badtr = [[
